@@ -50,13 +50,21 @@ func (s *zzShared) Write(p []byte) (int, error) {
 }
 
 func zzChunks(id string, letter string) []string {
-	n := zz.Choose("nchunks."+id, zz.Param("maxchunks", 2)+1)
+	max := zz.Param("maxchunks", 2)
+	if id != "A" && zz.Param("maxchunks_others", 0) > 0 { // (a deeper bound for one writer only)
+		max = zz.Param("maxchunks_others", 0)
+	}
+	n := zz.Choose("nchunks."+id, max+1)
 	var out []string
 	// chunk shapes: partial line, whole line, line end + partial line, empty line, two lines, empty write
 	// ... and a line longer than the buffer of a bufio.Writer (4096 bytes)
 	shapes := []string{letter, letter + "\n", "\n" + letter, "\n", letter + "\n" + letter + "\n", "", strings.Repeat(letter, 5000) + "\n"}
 	for k := 0; k < n; k++ {
-		out = append(out, shapes[zz.Choose(fmt.Sprintf("chunk.%s.%d", id, k), len(shapes))])
+		ns := len(shapes)
+		if k > 0 {
+			ns-- // (the long line only as the first chunk: the later ones multiply the schedules)
+		}
+		out = append(out, shapes[zz.Choose(fmt.Sprintf("chunk.%s.%d", id, k), ns)])
 	}
 	return out
 }
